@@ -136,6 +136,10 @@ func matchChunk(chunk, s string) (rest string, ok bool) {
 }
 
 func (p Pattern) MarshalJSON() ([]byte, error) {
+	if len(p.comps) == 0 {
+		// the empty pattern (matches only the empty string): UnmarshalJSON requires at least one component
+		return []byte(`[{"Literal":""}]`), nil
+	}
 	var buf bytes.Buffer
 	buf.WriteRune('[')
 	for i, comp := range p.comps {
